@@ -7,14 +7,14 @@ def run(run):
     b = lib.build_harness("dev")
     q = quick(run)
     # the generator run is the model-checking run of the full matrix (AcceptanceIgnoresMode, ResolvedCoherent + Emit)
-    cases, n = run.gen("mc/MC_Options.tla", "gen/Gen_C10_few.cfg" if q else "gen/Gen_C10_all.cfg", workers=8, name="matrix", timeout=1500)
+    cases, n = run.gen("mc/MC_Options.tla", "gen/Gen_C10_all.cfg", workers=8, name="matrix", timeout=1500)
     run.replay(b, cases, label="matrix")
     cases2, n2 = run.gen("mc/MC_Options.tla", "gen/Gen_C10_badinc.cfg", workers=4, name="badinc")
     run.replay(b, cases2, label="badinc")
     run.negative_control_replay(b, cases, corrupt_first(lambda e: e["out"]["kind"] == "range", lambda e: e["out"].__setitem__("kind", "ok")), limit=5000)
     run.exhaustive = True
     run.cov["rule"] = ("one case per cell of the full finite matrix {14 operations} x {largestUnit: 10 units, auto, absent} x {smallestUnit: 10 units, absent} x {23 increments incl. 1, divisors, "
-                      "non-divisors, maxima, day lengths, 1e9; plus 0 and 1e9+1} x {mode absent, ceil, halfEven (quick) / all 9 + absent (thorough)}; accepted cells compare the *result* on separating operands "
+                      "non-divisors, maxima, day lengths, 1e9; plus 0 and 1e9+1} x {mode absent and all 9 modes}; accepted cells compare the *result* on separating operands "
                       "wherever the value-level specs decide it, so the resolved defaults (auto largest unit, trunc for differences, halfExpand for round, since negates) are observed")
     run.cov["distinct_nontrivial"] = run.cov["evaluations"]
     run.assumptions += ["no trace leg: the space is finite and enumerated completely (exhaustive: true)",
